@@ -3,10 +3,13 @@
 import json, os, glob
 ROOT = os.path.dirname(os.path.abspath(__file__))
 props = [json.loads(l) for l in open(os.path.join(ROOT, "properties.jsonl"))]
+# checks/CLAIMED lists the property ids whose checks have been reviewed and are
+# green on the unchanged tree; only those are claimed in MANIFEST.json.
+allow = set(open(os.path.join(ROOT, "checks", "CLAIMED")).read().split())
 claimed = {}
 for f in sorted(glob.glob(os.path.join(ROOT, "checks", "C*.json"))):
     s = json.load(open(f))
-    if s.get("claimed", True):
+    if s["id"] in allow:
         claimed[s["id"]] = s
 manifest = {
     "version": 1,
